@@ -193,6 +193,7 @@ def save_read(kind, pdo_no, k, subs, dev_start, custom, wide=None):
         sx.fail("second read() raised %s" % C.exc_name(e), tag + "/reread-raises")
         return
     sx.prove(len(m2.map) == k, "number of mapped objects after a second read()", tag + "/reread-count")
+    _resave(m, dev, ci, mi, k, entries, cob, enabled)
     if len(m2.map) == k:
         for v2, (idx, sub, ln, off) in zip(m2.map, entries):
             sx.prove((v2.index == idx) & (v2.subindex == sub) & (v2.length == ln) & (v2.offset == off),
@@ -200,6 +201,34 @@ def save_read(kind, pdo_no, k, subs, dev_start, custom, wide=None):
     sx.prove(8 * len(m2.data) >= total_bits and 8 * len(m2.data) < total_bits + 8,
              "frame buffer after a second read()", tag + "/reread-data-size")
     sx.reach("read-back")
+
+
+def _resave(m, dev, ci, mi, k, entries, cob, enabled):
+    """'every prior state of the device': the device loses the configuration behind the node's back (power cycle to
+    an enabled factory mapping) and the same, unedited map object is saved again - the whole procedure runs again
+    and the device ends up configured"""
+    dev.com[1] = 0x333
+    dev.map[0] = 2
+    dev.map[1] = (POOL[0][0] << 16) | 16
+    dev.map[2] = (POOL[1][0] << 16) | 8
+    n0 = len(dev.log)
+    tag = "C09/resave"
+    try:
+        m.save()
+    except Exception as e:
+        sx.observe("exc", C.exc_name(e))
+        sx.fail("second save() raised %s" % C.exc_name(e), tag + "/raises")
+        return
+    log = dev.log[n0:]
+    sx.prove(len(dev.refused) == 0, "a strict device refused a write of the second save()", tag + "/refused-by-device")
+    mw = [(s_, v) for i, s_, v in log if i == mi]
+    sx.prove([s_ for s_, v in mw] == [0] + list(range(1, k + 1)) + [0], "second save() writes the mapping again, in order",
+             tag + "/mapping-order")
+    sx.prove(bool(dev.map[0] == k) and all(bool(dev.map[1 + j] == ((idx << 16) | (sub << 8) | ln))
+                                          for j, (idx, sub, ln, off) in enumerate(entries)),
+             "device holds the configured mapping after the second save()", tag + "/device-mapping")
+    sx.prove(bool(dev.valid()) == enabled, "device valid exactly when enabled after the second save()", tag + "/device-valid")
+    sx.reach("resave")
 
 
 def read_from_od(kind, source):
@@ -388,7 +417,7 @@ META = dict(
                     "COB-ID bit 29"],
     assumptions=["strict device rules from CiA 301 7.5.2.35/36 (mapping procedure)"],
     stubs=["struct", "SdoClient.upload/download replaced on the instance", "Network.send_message no-op", "logging"],
-    required_reach=["save-enabled", "save-disabled", "read-back", "event-driven", "from-od", "predefined", "load-configuration"],
+    required_reach=["save-enabled", "save-disabled", "read-back", "event-driven", "from-od", "predefined", "load-configuration", "resave"],
     limits=dict(quick=dict(max_decisions=20000), thorough=dict(max_decisions=50000)),
     validate_every=dict(quick=3, thorough=5),
     max_validate=dict(quick=30, thorough=30),
